@@ -568,16 +568,36 @@ func ruleC11Cursor(r *Run, p *Program, rule string) {
 		}
 	}
 	r.check(found, rule, funcKey(f)+":live-bound", p.Pos(f.Pos()), "the refill loop compares the scan position with index.numBuckets re-read on every iteration", "the scan is not bounded by the live bucket count (index.numBuckets read afresh in the loop): keys moved by a split into buckets appended after the scan started are never returned")
-	// ErrIterationDone only when the position reached the live bound
+	// ErrIterationDone only when the position reached the live bound: with the "position < numBuckets is false" edges and the
+	// "queue is not empty" edges removed, no ErrIterationDone return may remain reachable (any other way out of the refill
+	// loop ends the scan early)
+	wd := &Walk{Fn: f, SkipEdge: func(b *ssa.BasicBlock, k int) bool {
+		c := edgeCond(b, k)
+		if c == nil {
+			return false
+		}
+		if c.Op == token.LSS && !c.Pos && isFieldLoad(c.X, "pogreb.ItemIterator.nextBucketIdx") && isFieldLoad(c.Y, "pogreb.index.numBuckets") {
+			return true
+		}
+		if isQueueLen(c.X) {
+			// queue non-empty: len == 0 is false, len > 0 is true, len != 0 is true
+			if k0, ok := constInt(c.Y); ok && k0 == 0 {
+				switch c.Op {
+				case token.EQL:
+					return !c.Pos
+				case token.GTR, token.NEQ:
+					return c.Pos
+				}
+			}
+		}
+		return false
+	}}
+	wd.From()
 	for _, ret := range returnsOf(f) {
 		if len(ret.Results) != 3 || globalLoad(retOperand(ret, 2)) != "pogreb.ErrIterationDone" {
 			continue
 		}
-		okd := controlledBy(f, ret, func(c *Cond) bool {
-			return c.Op == token.LSS && !c.Pos && isFieldLoad(c.X, "pogreb.ItemIterator.nextBucketIdx") && isFieldLoad(c.Y, "pogreb.index.numBuckets") ||
-				(c.Op == token.GTR && isQueueLen(c.X) && !c.Pos) || (c.Op == token.EQL && isQueueLen(c.X) && c.Pos)
-		})
-		r.check(okd, rule, funcKey(f)+":done", p.Pos(instrPos(ret)), "ErrIterationDone is returned only with an empty queue / position at the live bound", "ErrIterationDone can be returned while buckets remain to be scanned")
+		r.check(!wd.Visited[ret], rule, funcKey(f)+":done", p.Pos(instrPos(ret)), "ErrIterationDone is returned only when the scan position reached the live bucket count (queue empty)", "the scan can end (ErrIterationDone) while buckets remain to be visited: there is a way out of the refill loop other than 'position reached index.numBuckets' or 'an item is available'", wd.PathTo(p, ret)...)
 	}
 	// what is returned comes out of the queue
 	g := p.Fn("(*pogreb.ItemIterator).fetchItems")
@@ -711,6 +731,28 @@ func ruleC12(r *Run, p *Program, rule string) {
 		}
 	}
 	r.universe(rule+".capture-locked", ncap, 1)
+	// the backup covers every open segment: the list is built from segmentsBySequenceID() and no element is skipped
+	{
+		var app ssa.Instruction
+		fromOrder := false
+		instrsOf(f, func(in ssa.Instruction) {
+			c, ok := in.(*ssa.Call)
+			if !ok {
+				return
+			}
+			if b, ok := c.Call.Value.(*ssa.Builtin); ok && b.Name() == "append" && strings.Contains(c.Type().String(), "segment") && inCycle(c.Block()) {
+				app = c
+			}
+			if calleeKey(&c.Call) == "(*pogreb.datalog).segmentsBySequenceID" {
+				fromOrder = true
+			}
+		})
+		if r.anchor(rule+".all-segments", "capture loop appending to the segment list in Backup", app != nil) {
+			r.check(fromOrder, rule+".all-segments", funcKey(f)+":source", p.Pos(app.Pos()), "the segments to copy are taken from segmentsBySequenceID() (every non-nil entry of the table)", "Backup does not enumerate the segments through segmentsBySequenceID(): after compaction freed a lower id the table has holes and a hand-written scan can miss the segments behind them")
+			checkSkipsOnly(r, p, rule+".all-segments", funcKey(f)+":no-skip", f, app, func(c *Cond) bool { return false },
+				"every enumerated segment is added to the list of segments to copy", "Backup's capture loop can skip or stop before a segment: the backup misses part of the log")
+		}
+	}
 	// bounded copy
 	var copyN, copyAll *ssa.Call
 	var lookup *ssa.Lookup
